@@ -272,12 +272,15 @@ fn one_rewrite(req: &Value, config: &Config, empty: &Config) -> Value {
                 rec.insert("map".into(), json!(map));
                 rec.insert("map_tokens".into(), tokens_of(&map));
                 rec.insert("orig_map".into(), orig.unwrap_or(Value::Null));
-                rec.insert("code".into(), json!(code));
+                rec.insert("code".into(), json!(code.clone()));
             } else {
                 rec.insert("has_orig_map".into(), json!(orig.is_some()));
             }
             if want_text_ast && !content.is_empty() {
                 rec.insert("out_text".into(), reparse(&content, &file, empty));
+            }
+            if req.get("code_ast").and_then(|v| v.as_bool()).unwrap_or(false) && !code.is_empty() {
+                rec.insert("code_text".into(), reparse(&code, &file, empty));
             }
             rec.insert("content".into(), json!(content));
         }
@@ -359,7 +362,7 @@ fn main() {
                 let cfg = req.get("cfg").cloned().unwrap_or(Value::Null);
                 let r = catch_unwind(AssertUnwindSafe(|| build_config(&cfg).map(|c| config_json(&c))));
                 match r {
-                    Ok(Ok(c)) => json!({"id": req.get("id"), "outcome": "ok", "config": c}),
+                    Ok(Ok(c)) => json!({"id": req.get("id"), "outcome": "ok", "config": c, "cfg": cfg, "mode": "config"}),
                     Ok(Err(e)) => json!({"id": req.get("id"), "outcome": "err", "err": e}),
                     Err(e) => json!({"id": req.get("id"), "outcome": "panic", "panic": panic_msg(e)}),
                 }
